@@ -194,10 +194,21 @@ def taikoCreate (objs : List Bool) (take : Nat) : Nat × Nat × Nat :=
   else
     (objs.length - 2, mc, if take > 0 ∧ nd > 0 then nd - 1 else nd)
 
-/-- One-shot `DifficultyValues::calculate`: `(max_combo, skills)`. -/
+/-- One-shot `DifficultyValues::calculate`: `(max_combo, skills)` (as fixed by `fix: taiko
+passed_objects(total hits) and the last gradual value include the drum rolls and swells after the
+last hit`: `if take >= total hits { n_diff_objects = diff_objects.objects.len(); }`). -/
 def taikoOneShot {S} (sk : Skills S) (objs : List Bool) (take : Nat) : Nat × S :=
   let (dl, mc, nd) := taikoCreate objs take
   let nd' := nd - 1                          -- `n_diff_objects.saturating_sub(1)`
+  let nd'' := if take ≥ (objs.filter id).length then dl else nd'
+  (mc, processedPrefix sk (min nd'' dl))
+
+/-- One-shot before that fix (`passed_objects(total hits)` stopped at the last hit while the unlimited
+calculation went on over the trailing drum rolls / swells) — kept only for the counter-witness
+`C02.taiko_trailing_nonhit_fails`. -/
+def Old.taikoOneShot {S} (sk : Skills S) (objs : List Bool) (take : Nat) : Nat × S :=
+  let (dl, mc, nd) := taikoCreate objs take
+  let nd' := nd - 1
   (mc, processedPrefix sk (min nd' dl))
 
 inductive FirstTwoCombos where
@@ -247,7 +258,8 @@ def FirstTwoCombos.nHits : FirstTwoCombos → Nat
   | .onlySecond => 1
   | .both => 2
 
-/-- `Iterator::next` (as fixed):
+/-- `Iterator::next` up to and including `self.idx += 1` (as fixed by `fix: taiko gradual difficulty counts
+the first two objects like every other hit`):
 ```text
 if self.idx >= self.first_combos.n_hits() {
     loop { let curr = self.diff_objects_iter.next()?; …process…;
@@ -257,7 +269,7 @@ if self.idx >= self.first_combos.n_hits() {
 }
 self.idx += 1;
 ``` -/
-def taikoNext {S} (sk : Skills S) (objs : List Bool) (g : TaikoGrad S) :
+def taikoNextCore {S} (sk : Skills S) (objs : List Bool) (g : TaikoGrad S) :
     Option (Nat × S) × TaikoGrad S :=
   let bases := objs.drop 2
   if g.idx ≥ (taikoFirstCombos objs).nHits then
@@ -269,6 +281,30 @@ def taikoNext {S} (sk : Skills S) (objs : List Bool) (g : TaikoGrad S) :
   else
     let g' := { g with maxCombo := g.maxCombo + 1, idx := g.idx + 1 }
     (some (g'.maxCombo, g'.skills), g')
+
+/-- The rest of `Iterator::next` (added by `fix: taiko passed_objects(total hits) and the last gradual
+value include the drum rolls and swells after the last hit`):
+```text
+if self.idx == self.total_hits {
+    for curr in self.diff_objects_iter.by_ref() { …process… }
+}
+``` -/
+def taikoDrain {S} (sk : Skills S) (objs : List Bool) (g : TaikoGrad S) : TaikoGrad S :=
+  let bases := objs.drop 2
+  if g.idx = (objs.filter id).length then
+    { g with skills := processFrom sk g.skills g.iterPos (bases.length - g.iterPos),
+             iterPos := g.iterPos + (bases.length - g.iterPos) }
+  else g
+
+/-- `Iterator::next`: `taikoNextCore` (a `None` of the hit loop's `?` returns at once), the drain once the
+last hit is reported, then the attributes of the value are computed. -/
+def taikoNext {S} (sk : Skills S) (objs : List Bool) (g : TaikoGrad S) :
+    Option (Nat × S) × TaikoGrad S :=
+  match taikoNextCore sk objs g with
+  | (none, g') => (none, g')
+  | (some _, g') =>
+    let g'' := taikoDrain sk objs g'
+    (some (g''.maxCombo, g''.skills), g'')
 
 /-- `len`: `self.total_hits - self.idx`, checked. -/
 def taikoLen {S} (objs : List Bool) (g : TaikoGrad S) : Option Nat :=
